@@ -201,6 +201,7 @@ class Ctx:
         self.findings = []      # (rule, fn, detail, msg, file, line, undecided)
         self.obligations = []   # (rule, ok, text)
         self.fields = {}        # (adt path, field) -> AV  (join of stores)
+        self.field_origins = {} # (adt path, field) -> AV  (join of the stores that are not updates of the field by itself)
         self.ret_memo = {}
         self.active = set()
         self.counters = {}
@@ -956,7 +957,12 @@ class FnEval:
 
     def ev_assign(self, e):
         v = self.ev(e["r"])
-        self.store(e["l"], v, e["line"])
+        ls = _norm_src(_src_of(e["l"]))
+        self._self_update = bool(ls) and ls in _norm_src(_src_of(e["r"]))
+        try:
+            self.store(e["l"], v, e["line"])
+        finally:
+            self._self_update = False
         return T()
 
     def note_adjust(self, e, r):
@@ -1175,7 +1181,11 @@ class FnEval:
         conflicts = []
         v = self.arith(op, l, r, conflicts, e)
         self.conflict_check(conflicts, "`%s`" % e.get("src", op), e["line"])
-        self.store(e["l"], v, e["line"])
+        self._self_update = True
+        try:
+            self.store(e["l"], v, e["line"])
+        finally:
+            self._self_update = False
         return T()
 
     def store(self, lhs, v, line):
@@ -1243,6 +1253,8 @@ class FnEval:
         # structs such as OffsetLookup / SliceRemapper / UnifiedDiffHunkRange are used for both sides: the global
         # per-field join only feeds `self.field` reads; a side clash degrades to "unknown side", not a finding
         self.ctx.fields[(adt, name)] = _unx(join(self.ctx.fields.get((adt, name)), v, None))
+        if not getattr(self, "_self_update", False):
+            self.ctx.field_origins[(adt, name)] = _unx(join(self.ctx.field_origins.get((adt, name)), v, None))
 
     def check_declared(self, adt, name, ty_str, v, line):
         """A4: a field whose name declares side/kind must receive a value of that side/kind."""
@@ -1408,9 +1420,28 @@ class FnEval:
         self.conflict_check(conflicts, "`%s`" % e.get("src", op), e["line"], rule="A7")
         return v
 
+    def zero_based_field(self, x):
+        """Side of a cursor field whose name declares a position but which only ever starts from the literal 0 and is
+        otherwise updated from itself: added to a position it is an offset (seed C13h-2), not a second position."""
+        from .tables import unwrap
+        x = unwrap(x) if isinstance(x, dict) else x
+        if not (isinstance(x, dict) and x.get("k") == "field"):
+            return None
+        adt = _adt_of_ty(x.get("base_ty") or "")
+        o = self.ctx.field_origins.get((adt, x["name"])) if adt else None
+        if is_s(o) and o[1] == ZERO:
+            return name_side(x["name"])
+        return None
+
     def arith(self, op, l, r, conflicts, e):
         if l is None or r is None:
             return None
+        if op == "+" and is_s(l) and is_s(r) and l[1] == POS and r[1] == POS:
+            zl, zr = self.zero_based_field(e.get("l")), self.zero_based_field(e.get("r"))
+            if zr and not zl:
+                r = S(LEN, zr)
+            elif zl and not zr:
+                l = S(LEN, zl)
         if op in ("+", "-"):
             if self.report and is_s(l) and is_s(r):
                 for a, b in ((l, r), (r, l)):
